@@ -10,7 +10,7 @@ def run_check(tier, seed, replay=None):
     trace = os.path.join(BUILD, "c19.ndjson")
     if replay:
         r = json.load(open(replay))
-        open(hist, "w").write(json.dumps(r["history"]) + "\n")
+        open(hist, "w").write((json.dumps(r["history"]) + "\n") if "ops" in r["history"] else "")
         vh(["drive-storage", "--histories", hist, "--out", trace])
         mc = None
     else:
@@ -34,12 +34,29 @@ def run_check(tier, seed, replay=None):
         ops = [[x["op"], x["v"]] for x in events[s + 1:idx]]
         rep.violation("storage:%s:%s:%s:code%d" % (events[s]["ty"], e["op"], e["v"].get("m"), code), {"component": "storage", "history": {"ops": ops, "ty": events[s]["ty"]},
                       "observed": {"tok": e["tok"], "lookups": e["lookups"], "st": e["st"]}, "expected": "Storage!Apply and Lookup through every token handed out", "spec_ref": "StorageTrace!Call"})
+    bulk = None
+    if not replay or "bulk" in json.load(open(replay)).get("history", {}):
+        # C19 at scale: "the n-th appended value has index n-1" beyond 2^16 values (spec/StorageBulk.tla)
+        nb = json.load(open(replay))["history"]["bulk"] if replay else (70000 if tier == "quick" else 400000)
+        mcb = tlc_mc("MC_StorageBulk.tla", "MC_StorageBulk.cfg", "c19_mc_bulk")
+        btrace = os.path.join(BUILD, "c19_bulk.ndjson")
+        vh(["drive-storage", "--bulk", str(nb), "--out", btrace])
+        bn, bbad, bdt = tlc_trace("StorageBulkTrace.tla", "StorageBulkTrace.cfg", btrace, "c19_bulk")
+        log("bulk: %d values, %d events, %d rejected, %.1fs" % (nb, bn, len(bbad), bdt))
+        bev = read_trace(btrace) if bbad else []
+        for idx, code in bbad:
+            e = bev[idx - 1]
+            if code == 8:
+                raise ToolError("bulk driver produced a run StorageBulkTrace does not admit: %s" % json.dumps({k: e[k] for k in ("op", "from", "to")}))
+            rep.violation("storage:bulk:%s:code%d" % (e["op"], code), {"component": "storage", "history": {"bulk": nb}, "observed": {"op": e["op"], "from": e["from"], "to": e["to"], "toks": e["toks"][:6], "lookups": e["lookups"][:6], "st": e["st"]},
+                          "expected": "StorageBulk!BulkApply: new numbers get the next indices, stored numbers their own; every token yields its number", "spec_ref": "StorageBulkTrace!RunEv"})
+        bulk = {"values": nb, "events_validated": bn, "refinement_model": {"module": "spec/MC_StorageBulk.tla", "states": mcb["states"]}}
     rc = rep.finish()
     if replay:
         return rc
     sample = [json.loads(l) for l in open(trace).readlines()[:4]]
     write_evidence("C19", tier, seed, {"states": mc["states"], "transitions": mc["transitions"], "traces_validated_against_impl": info["histories"],
         "samples": sample, "events_validated": n, "model": {"module": "spec/MC_Storage.tla", "config": "MC_Storage_%s.cfg" % tier, "depth": mc["depth"], "edges_replayed": mc["edges"]},
-        "exhaustive": False}, ["TLC 1.8.0", "element types: f64 with +0.0 / -0.0 (equal but distinguishable: a lookup must yield the stored one) and NaN, and a key/tag type whose equality is 'same key and different tag' (non-reflexive, yet stored values can equal the argument), and numbers equal iff at distance <= 1 (reflexive, symmetric, not transitive)"],
+        "bulk": bulk, "exhaustive": False}, ["TLC 1.8.0", "element types: f64 with +0.0 / -0.0 (equal but distinguishable: a lookup must yield the stored one) and NaN, and a key/tag type whose equality is 'same key and different tag' (non-reflexive, yet stored values can equal the argument), and numbers equal iff at distance <= 1 (reflexive, symmetric, not transitive)"],
         time.time() - t0, len(rep.new))
     return rc
